@@ -394,8 +394,8 @@ theorem tuEmit_size (key : Bytes) (start : Entry Text) (lastX : Nat) (more : Lis
   | nil => simp [tuItemSize]
   | cons m more =>
     simp only [tuItemSize]
-    have hne : (if tuNeedsList start.val 1 (m :: more) = true then start.val :: m :: more else [start.val]).isEmpty = false := by
-      split <;> simp
+    have hne : ∀ (b : Bool), (if b = true then start.val :: m :: more else [start.val]).isEmpty = false := by
+      intro b; cases b <;> simp
     simp only [hne, Bool.false_eq_true, if_false]
     rw [rangeCount_append key _ _ (by omega)]
     omega
